@@ -170,5 +170,6 @@ func Main() {
 	r.Floor("corpus_scenarios", int64(len(presets())))
 	r.Floor("repeat_heights_compared:in-process-repeat", 5)
 	r.Floor("network_heights_with_txs", 3)
+	r.Floor("networks", 2)
 	r.Finish()
 }
